@@ -1529,7 +1529,7 @@ func init() {
 
 func init() {
 	register(&Rule{
-		Name: "client-loop-shape", Props: []string{"C02", "C07", "C11", "C12", "C18"}, Engine: "FDE", Floor: 16,
+		Name: "client-loop-shape", Props: []string{"C02", "C07", "C11", "C12", "C18"}, Engine: "FDE", Floor: 17,
 		Doc: "glue of the client's loops that no other rule pins: the handshake sends the caller's SETTINGS (copied) and a connection WINDOW_UPDATE carrying the given credit, each attached to its frame and written; WINDOW_UPDATE frames are applied to the stream they name and, on stream 0, to the connection; a frame is routed to the connection-level switch exactly when its stream id is 0; dispatch resolves the request with nil when END_STREAM arrived without error and with the error otherwise; the read loop leaves on `stop || drained`; the request context learns its connection and stream before the request is queued; the body cut advances the pending body; each DATA frame carries END_STREAM iff it is the last of a final run; the release closure marks itself before unlocking; closeErr never yields nil; a GOAWAY with a last stream records it and marks the connection closing",
 		Run: ruleClientLoopShape,
 	})
@@ -1606,6 +1606,20 @@ func ruleClientLoopShape(p *Prog, r *Out) {
 		}
 		return true
 	})
+	// ... and goes no further: dispatch takes the request's Ctx, which the write loop holds while it writes the body the credit is for
+	wuDone := false
+	ast.Inspect(rl.Body, func(n ast.Node) bool {
+		ifs, ok := n.(*ast.IfStmt)
+		if !ok || squash(p.text(ifs.Cond)) != "fr.Type()==FrameWindowUpdate" {
+			return true
+		}
+		t := stmtTexts(p, ifs.Body.List)
+		if len(t) == 3 && strings.HasPrefix(t[0], "c.addWindow(fr.Stream(),") && t[1] == "ReleaseFrameHeader(fr)" && t[2] == "continue" {
+			wuDone = true
+		}
+		return true
+	})
+	r.check(wuDone, "a stream WINDOW_UPDATE is not handed to the request", p.pos(rl.Pos()), "if WINDOW_UPDATE { addWindow; ReleaseFrameHeader(fr); continue } ahead of dispatch", "the read loop dispatches a stream's WINDOW_UPDATE after applying it: dispatch waits for the request's Ctx, the write loop holds it while writing the body, the wait limits the write in progress to writeGrace, and a server that reads an upload slowly while granting credit loses the connection")
 	r.check(streamWU, "stream WINDOW_UPDATE is applied to its stream", p.pos(rl.Pos()), "addWindow(fr.Stream(), increment)", "a stream-level WINDOW_UPDATE no longer reaches the pending body of the stream it names: the body waits for credit the server has already given")
 	r.check(connWU, "connection WINDOW_UPDATE is applied to the connection", p.pos(rn.Pos()), "addWindow(0, increment)", "a WINDOW_UPDATE on stream 0 no longer credits the connection send window")
 	// routing: connection-level switch exactly for stream 0
